@@ -67,6 +67,22 @@ def main():
                     res["replay_kind"] = rj.get("kind")
                 except Exception:
                     pass
+        # a change seeded for one property may be caught by the check of another property it also breaks
+        # (<dir>/also.txt lists those checks); recorded separately, never counted as this property's detection
+        also = (d / "also.txt").read_text().split() if (d / "also.txt").exists() else []
+        for other in also:
+            env2 = dict(env, HV_EVIDENCE_DIR=str(ROOT / "out" / "seed-evidence" / (d.name + "-" + other)))
+            rc2, out2 = sh([str(ROOT / "check"), other, "--tier", tier], cwd=ROOT, env=env2, timeout=7200)
+            a = {"check_rc": rc2}
+            for l in out2.splitlines():
+                if l.startswith("VIOLATION") and "replay=" in l:
+                    try:
+                        rj = json.loads(Path(l.split("replay=")[1].split()[0]).read_text())
+                        a["detected_as"] = rj.get("signature") or rj.get("kind")
+                        a["replay_kind"] = rj.get("kind")
+                    except Exception:
+                        pass
+            res.setdefault("also", {})[other] = a
         return res
     finally:
         sh(["git", "-C", "/repo", "worktree", "remove", "--force", str(wt)])
